@@ -8,7 +8,7 @@ from .ctx import Machinery
 QUICK = [("mc/MC_MdBlocksQ", "MC_MdBlocksQ_2.cfg"), ("mc/MC_MdBlocksN", "MC_MdBlocksN_2.cfg"), ("mc/MC_MdBlocksD", "MC_MdBlocksD_2.cfg"),
          ("mc/MC_MdBlocksO", "MC_MdBlocksO_3.cfg"), ("mc/MC_MdBlocksT", "MC_MdBlocksT_3.cfg"), ("mc/MC_MdBlocksR", "MC_MdBlocksR_3.cfg"),
          ("mc/MC_MdBlocksH", "MC_MdBlocksH_2.cfg"), ("mc/MC_MdBlocksL", "MC_MdBlocksL_2.cfg"), ("mc/MC_MdBlocksM", "MC_MdBlocksM_3.cfg"),
-         ("mc/MC_MdBlocksK", "MC_MdBlocksK_all.cfg"), ("mc/MC_MdBlocksJ", "MC_MdBlocksJ_all.cfg"), ("mc/MC_MdBlocksG", "MC_MdBlocksG_2.cfg"), ("mc/MC_MdBlocksB", "MC_MdBlocksB_all.cfg"), ("mc/MC_MdBlocksP", "MC_MdBlocksP_all.cfg")]
+         ("mc/MC_MdBlocksK", "MC_MdBlocksK_all.cfg"), ("mc/MC_MdBlocksJ", "MC_MdBlocksJ_all.cfg"), ("mc/MC_MdBlocksG", "MC_MdBlocksG_2.cfg"), ("mc/MC_MdBlocksB", "MC_MdBlocksB_all.cfg"), ("mc/MC_MdBlocksP", "MC_MdBlocksP_all.cfg"), ("mc/MC_MdBlocksW", "MC_MdBlocksW_all.cfg")]
 THOROUGH = [("mc/MC_MdBlocksF", "MC_MdBlocksF_2.cfg"), ("mc/MC_MdBlocksQ", "MC_MdBlocksQ_3v.cfg"), ("mc/MC_MdBlocksN", "MC_MdBlocksN_3v.cfg"),
             ("mc/MC_MdBlocksQ", "MC_MdBlocksQ_2.cfg"), ("mc/MC_MdBlocksN", "MC_MdBlocksN_2.cfg"), ("mc/MC_MdBlocksD", "MC_MdBlocksD_2.cfg"),
             ("mc/MC_MdBlocksD", "MC_MdBlocksD_3v.cfg"), ("mc/MC_MdBlocksO", "MC_MdBlocksO_3.cfg"), ("mc/MC_MdBlocksT", "MC_MdBlocksT_3.cfg"),
@@ -16,7 +16,7 @@ THOROUGH = [("mc/MC_MdBlocksF", "MC_MdBlocksF_2.cfg"), ("mc/MC_MdBlocksQ", "MC_M
             ("mc/MC_MdBlocksL", "MC_MdBlocksL_2.cfg"), ("mc/MC_MdBlocksM", "MC_MdBlocksM_3.cfg"), ("mc/MC_MdBlocksL", "MC_MdBlocksL_3.cfg"),
             ("mc/MC_MdBlocksM", "MC_MdBlocksM_4.cfg"), ("mc/MC_MdBlocksK", "MC_MdBlocksK_all.cfg"), ("mc/MC_MdBlocksJ", "MC_MdBlocksJ_all.cfg"),
             ("mc/MC_MdBlocksG", "MC_MdBlocksG_2.cfg"), ("mc/MC_MdBlocksG", "MC_MdBlocksG_3.cfg"), ("mc/MC_MdBlocksB", "MC_MdBlocksB_all.cfg"),
-            ("mc/MC_MdBlocksP", "MC_MdBlocksP_all.cfg")]
+            ("mc/MC_MdBlocksP", "MC_MdBlocksP_all.cfg"), ("mc/MC_MdBlocksW", "MC_MdBlocksW_all.cfg")]
 
 
 def model_docs(ctx, tier):
@@ -120,6 +120,12 @@ def position_docs(tier):
             for tl in tails:
                 docs.append(("", "%sPress %s then %s now\n" % (ctxp, tgc, tl)))
                 docs.append(("", "%sx %s y\n%s%s and %s z\n" % (ctxp, tgc, ind, tl, tgc)))
+    # link text that holds a finished emphasis pair or bracketed text and then an UNMATCHED opener whose closer comes after the link
+    for ctxp in ("", "> ", "- "):
+        for d_ in ("*", "_"):
+            for lt in ("[**Important** and %smore](/url) text%s here", "See [note [1] on %susage](/docs/usage.md) for details%s first.",
+                       "read [the **big** %sguide][g] today%s", "[`code` and %sopen](/u) close%s", "![**alt** %simg](/i.png) after%s"):
+                docs.append(("", "%s%s\n\n[g]: /guide\n" % (ctxp, lt % (d_, d_))))
     # a link / image whose label wraps a line, followed in the same paragraph by another element that spans two lines
     for ctxp in ("", "> ", "- "):
         ind = "  " if ctxp == "- " else ctxp
